@@ -198,7 +198,12 @@ func satAdd(a, b, cap int64) int64 {
 	return a + b
 }
 
-func estimateExpansion(toks []tok, cap int64) (cost int64, nImports, nSnippets int) {
+// structure computes, for a token list, the matching closing brace of every
+// "{" (n when unclosed) and the number of open blocks at every token.
+// A "}" token closes a block iff it directly follows "{", or is the last token
+// on its line, or is the first token on its line and the previous line is not
+// continued with a backslash; any other "}" is an ordinary argument.
+func structure(toks []tok) (match, depthAt []int) {
 	n := len(toks)
 	firstOnLine := func(k int) bool {
 		return k == 0 || toks[k-1].line+nlCount(toks[k-1].text) < toks[k].line
@@ -206,10 +211,12 @@ func estimateExpansion(toks []tok, cap int64) (cost int64, nImports, nSnippets i
 	lastOnLine := func(k int) bool {
 		return k == n-1 || toks[k].line+nlCount(toks[k].text) < toks[k+1].line
 	}
-	match := make([]int, n)
+	match = make([]int, n)
+	depthAt = make([]int, n)
 	var stack []int
 	for k := 0; k < n; k++ {
 		match[k] = n
+		depthAt[k] = len(stack)
 		switch toks[k].text {
 		case "{":
 			stack = append(stack, k)
@@ -221,6 +228,12 @@ func estimateExpansion(toks []tok, cap int64) (cost int64, nImports, nSnippets i
 			}
 		}
 	}
+	return
+}
+
+func estimateExpansion(toks []tok, cap int64) (cost int64, nImports, nSnippets int) {
+	n := len(toks)
+	match, _ := structure(toks)
 	var imports []int
 	for k := 0; k < n; k++ {
 		if toks[k].text == "import" {
@@ -306,4 +319,114 @@ func estimateExpansion(toks []tok, cap int64) (cost int64, nImports, nSnippets i
 		cost = satAdd(cost, tgt(target(ik), prev), cap)
 	}
 	return cost, nImports, nSnippets
+}
+
+// ---------------------------------------------------------------------------
+// Macro expansion size estimate (bytes), an over-approximation.
+//
+// The parser expands macros with no budget either: "$(m) = x$(m)$(m)" repeated
+// k times doubles the value k times, and because a node is expanded once when
+// it is read and once more by every enclosing block, a value that still
+// contains "$(" text (possible only outside conditions S/S1) is re-expanded
+// once per nesting level. Inputs whose estimate exceeds the byte cap are
+// skipped like inputs over the node cap.
+//
+// Model: Smax = largest total size of any macro's values so far, Dmax = largest
+// number of "$(" occurrences that may be left in any macro's values. One pass
+// over a token with d occurrences of "$(" adds at most d*Smax bytes and leaves
+// at most d*f occurrences, f = 0 under S/S1 (values are free of "$("),
+// otherwise max(1, Dmax) (+2 when the input has a '$' not followed by '(',
+// which is the only way a new "$(" can be formed at a junction).
+func estimateMacroBytes(toks []tok, level int, cap int64) int64 {
+	n := len(toks)
+	hasRef := false
+	bare := false
+	for _, t := range toks {
+		s := t.text
+		for i := 0; i < len(s); i++ {
+			if s[i] == '$' {
+				if i+1 < len(s) && s[i+1] == '(' {
+					hasRef = true
+				} else {
+					bare = true
+				}
+			}
+		}
+	}
+	if !hasRef {
+		return 0
+	}
+	satMul := func(a, b int64) int64 {
+		if a == 0 || b == 0 {
+			return 0
+		}
+		if a > cap || b > cap || a > cap/b {
+			return cap + 1
+		}
+		return a * b
+	}
+	firstOnLine := func(k int) bool {
+		return k == 0 || toks[k-1].line+nlCount(toks[k-1].text) < toks[k].line
+	}
+	var smax, dmax int64
+	factor := func() int64 {
+		if level >= 1 {
+			return 0
+		}
+		f := dmax
+		if f < 1 {
+			f = 1
+		}
+		if bare {
+			f += 2
+		}
+		return f
+	}
+	// expand models `passes` expansion passes over one token
+	expand := func(s string, passes int) (size, left int64) {
+		size = int64(len(s))
+		d := int64(strings.Count(s, "$("))
+		for p := 0; p < passes && d > 0; p++ {
+			size = satAdd(size, satMul(d, smax), cap)
+			d = satMul(d, factor())
+			if size > cap {
+				break
+			}
+		}
+		return size, d
+	}
+	var total int64
+	_, depthAt := structure(toks)
+	for k := 0; k < n; k++ {
+		t := toks[k].text
+		depth := depthAt[k]
+		if firstOnLine(k) && len(t) >= 3 && strings.HasPrefix(t, "$(") && strings.HasSuffix(t, ")") && k+1 < n && toks[k+1].text == "=" {
+			// declaration: values are the rest of the logical line
+			var sk, dk int64
+			j := k + 2
+			for j < n && (!firstOnLine(j) || toks[j-1].text == `\`) {
+				s, d := expand(toks[j].text, 1)
+				sk = satAdd(sk, s, cap)
+				dk = satAdd(dk, d, cap)
+				j++
+			}
+			if sk > smax {
+				smax = sk
+			}
+			if dk > dmax {
+				dmax = dk
+			}
+			total = satAdd(total, sk, cap)
+			k = j - 1
+			continue
+		}
+		if strings.Contains(t, "$(") {
+			s, _ := expand(t, depth+3)
+			total = satAdd(total, s, cap)
+		}
+		if total > cap {
+			return total
+		}
+	}
+	return total
 }
